@@ -92,7 +92,7 @@ impl<R: Region, O: IndexContainer<R::Index>> Region for SliceRegion<R, O> {
         Self: 'a,
     {
         Self {
-            slices: O::default(),
+            slices: O::merge_regions(regions.clone().map(|r| &r.slices)),
             inner: R::merge_regions(regions.map(|r| &r.inner)),
         }
     }
